@@ -242,6 +242,24 @@ def dayBudget (considerDaylight : Bool) (workdayH daylightH : Int) : Int :=
   let h := if considerDaylight then (if workdayH < daylightH then workdayH else daylightH) else workdayH
   h * 60
 
+/-! ### how many crews a method has -/
+
+/-- `Method.initialize_crews` + `_estimate_method_crews_required` (method.py:81-97, 153-186): a
+stationary method has one pseudo crew; otherwise a configured positive `crew_count` is what the
+method gets, whatever LDAR-Sim's own estimate says (a larger estimate only prints a shortage
+warning); with `crew_count` 0 the estimate is used -- 1 for a follow-up method, the portfolio estimate
+`ceil(n_sites / (sites per crew-day x days between surveys))` (an input here) otherwise -/
+def methodCrews (stationary followUp : Bool) (configured estimate : Nat) : Nat :=
+  if stationary then 1
+  else if configured > 0 then configured
+  else if followUp then 1 else estimate
+
+/-- `deploy_crews` of a method described by its configuration: the crews it is run with are the
+crews the configuration gives it -/
+def deployConfigured (p : MethodP) (followUp : Bool) (configured estimate : Nat) (budget : Int)
+    (reqs : List Req) : DaySt :=
+  deployDay p budget (methodCrews p.stationary followUp configured estimate) reqs
+
 /-! ### one survey over several days -/
 
 /-- what a survey sees on one day: minutes of the crew that is sent, sampled travel time, weather
